@@ -620,12 +620,88 @@ static void pool_cleanup(void) {
   unlink(f_topo); unlink(f_diff);
 }
 
+/* ------------------------------------------------------------------ writable static storage of the library (C17-r7)
+ * mprotect(PROT_READ) on the arena sees stores into the TOPOLOGY only.  A consulting call that writes a static variable of the
+ * library (a process-wide size hint, a scratch buffer, a counter) is a shared write as well: the link map of this very binary
+ * (<exe>.map, written by tools/common.py) gives the .data/.bss contribution of every library object; those bytes are compared
+ * around every read-only call.  A byte may change ONCE per process (lazy first-use initialisation of an environment cache: known
+ * finding F15, the theorems assume a warmed-up process); a byte that changes again is reported as `static-write <object>+<offset>`
+ * where the model answers `ro`. */
+#include <link.h>
+struct srange { uintptr_t a; size_t n, off; char obj[56]; };
+static struct srange SR[512]; static unsigned nsr; static unsigned char *s_snap, *s_once; static size_t s_len;
+static unsigned long st_static_ranges, st_static_bytes, st_static_first, st_static_checks;
+static int phdr_cb(struct dl_phdr_info *i, size_t sz, void *d) { (void) sz; *(uintptr_t *) d = i->dlpi_addr; return 1; }
+static void statics_setup(void) {
+  char exe[1024], line[2048], sec[256] = ""; ssize_t k = readlink("/proc/self/exe", exe, sizeof exe - 8);
+  if (k <= 0) return; exe[k] = 0; strcat(exe, ".map");
+  FILE *f = fopen(exe, "r"); if (!f) return;
+  uintptr_t base = 0; dl_iterate_phdr(phdr_cb, &base);
+  while (fgets(line, sizeof line, f)) {
+    char t1[512] = "", t2[512] = "", t3[512] = "", t4[1024] = "";
+    int n = sscanf(line, " %511s %511s %511s %1023s", t1, t2, t3, t4);
+    const char *name, *sa, *ss, *path;
+    if (n == 1 && t1[0] == '.') { snprintf(sec, sizeof sec, "%s", t1); continue; }          /* long section name: rest on the next line */
+    if (n == 4 && t1[0] == '.' && !strncmp(t2, "0x", 2) && !strncmp(t3, "0x", 2)) { name = t1; sa = t2; ss = t3; path = t4; }
+    else if (n == 3 && !strncmp(t1, "0x", 2) && !strncmp(t2, "0x", 2) && sec[0]) { name = sec; sa = t1; ss = t2; path = t3; }
+    else { sec[0] = 0; continue; }
+    int writable = !strncmp(name, ".data", 5) || !strncmp(name, ".bss", 4);
+    if (!strncmp(name, ".data.rel.ro", 12)) writable = 0;
+    const char *lib = strstr(path, "/lib-"); size_t pl = strlen(path);
+    unsigned long long a = strtoull(sa, NULL, 16), sz = strtoull(ss, NULL, 16);
+    if (writable && lib && pl > 2 && !strcmp(path + pl - 2, ".o") && sz && a && nsr < 512) {
+      const char *bn = strrchr(path, '/'); snprintf(SR[nsr].obj, sizeof SR[nsr].obj, "%s:%s", bn ? bn + 1 : path, name);
+      SR[nsr].a = base + (uintptr_t) a; SR[nsr].n = (size_t) sz; SR[nsr].off = s_len; s_len += ((size_t) sz + 7) & ~(size_t) 7; nsr++;
+    }
+    sec[0] = 0;
+  }
+  fclose(f);
+  s_snap = malloc(s_len + 1); s_once = calloc(s_len + 1, 1);
+  st_static_ranges = nsr; st_static_bytes = s_len;
+}
+/* no ASan here: the ranges include the red zones between instrumented globals.  Word-wise: about 1.4 MB per process (most of it
+ * sanitizer metadata in .data.rel.local, which also holds pointer-initialised statics and therefore stays in) */
+__attribute__((no_sanitize_address, no_sanitize_undefined, noinline)) static void statics_take(void) {
+  for (unsigned r = 0; r < nsr; r++) {
+    const unsigned char *p = (const unsigned char *) SR[r].a; unsigned char *q = s_snap + SR[r].off; size_t i = 0, n = SR[r].n;
+    if (!(((uintptr_t) p | (uintptr_t) q) & 7)) for (; i + 8 <= n; i += 8) *(uint64_t *) (q + i) = *(const volatile uint64_t *) (p + i);
+    for (; i < n; i++) q[i] = ((const volatile unsigned char *) p)[i];
+  }
+}
+/* returns 1 and describes the first byte that changed for at least the second time in this process */
+__attribute__((no_sanitize_address, no_sanitize_undefined, noinline)) static int statics_changed(char *what) {
+  int hit = 0;
+  st_static_checks++;
+  for (unsigned r = 0; r < nsr; r++) {
+    const unsigned char *p = (const unsigned char *) SR[r].a; const unsigned char *q = s_snap + SR[r].off; size_t i = 0, n = SR[r].n;
+    int aligned = !(((uintptr_t) p | (uintptr_t) q) & 7);
+    while (i < n) {
+      if (aligned && i + 8 <= n && *(const uint64_t *) (q + i) == *(const volatile uint64_t *) (p + i)) { i += 8; continue; }
+      if (q[i] != ((const volatile unsigned char *) p)[i]) {
+        if (!s_once[SR[r].off + i]) { s_once[SR[r].off + i] = 1; st_static_first++; }
+        else if (!hit) { hit = 1; sprintf(what, "static-write %s+0x%zx", SR[r].obj, i & ~(size_t) 7); }
+      }
+      i++;
+    }
+  }
+  return hit;
+}
+
+static int warmed;
+static void warm_up(void);
 static void exec_line(const char *line) {
   char res[4200] = "bad-op", w1[64] = "", w2[64] = "", w3[64] = "";
   unsigned long long u = 0;
   st_ops++;
   fprintf(fops, "%s\n", line); fflush(fops);      /* before running it: a crashing op is the last line of the op file */
-  if (sscanf(line, "load %llu", &u) == 1) {
+  if (!warmed) {
+    /* the XML back ends are chosen once per process (static caches in topology-xml.c): the choice is the first line of a process */
+    if (!strcmp(line, "xmlexport 0")) setenv("HWLOC_LIBXML_EXPORT", "0", 1);
+    warm_up(); warmed = 1;
+  }
+  if (!strncmp(line, "xmlexport ", 10)) {
+    strcpy(res, "ok");
+  } else if (sscanf(line, "load %llu", &u) == 1) {
     do_load(u, res, 0);
   } else if (sscanf(line, "loadbind %llu", &u) == 1) {
     do_load(u, res, 1); st_loadbind++;
@@ -678,9 +754,11 @@ static void exec_line(const char *line) {
       } else {
         unsigned users0 = hwloc_components_users;
         st_calls++;
+        statics_take();
         if (sigsetjmp(jb, 1) == 0) {
           armed = 1; e->fn(t, &cx); armed = 0;
           strcpy(res, "ro"); st_ro++;
+          { char what[160]; if (statics_changed(what)) strcpy(res, what); }
         } else {
           /* a write (or read) faulted on the read-only copy; nothing was modified */
           while (hwloc_components_users > users0) hwloc_components_fini();   /* an interrupted XML export */
@@ -905,6 +983,7 @@ static void episode(uint64_t eseed) {
 
 static void warm_up(void) {
   /* initialise every function-local static environment cache once (cold start = known finding F15) */
+  statics_setup();
   hwloc_topology_t t, t2; char *buf; int len;
   hwloc_topology_init(&t); hwloc_topology_set_synthetic(t, "numa:2 core:2 pu:2"); hwloc_topology_load(t);
   if (!hwloc_topology_export_xmlbuffer(t, &buf, &len, 0)) {
@@ -926,7 +1005,6 @@ int main(int argc, char **argv) {
   replaying = !strcmp(argv[1], "--replay");
   snprintf(scratch, sizeof scratch, "%s.scratch.xml", argv[3]);
   reg_setup(argv[3]);
-  warm_up();
   if (replaying) {
     FILE *in = fopen(argv[2], "r"); char line[8192], eff[600];
     if (!in) { perror(argv[2]); return 2; }
@@ -943,8 +1021,10 @@ int main(int argc, char **argv) {
     uint64_t seed = rng_seed_from_env();
     rng_seed(seed);
     fops = fopen(argv[2], "w"); fout = fopen(argv[3], "w");
+    exec_line((seed >> 3) & 1 ? "xmlexport 0" : "xmlexport 1");     /* half of the processes export through the built-in back end */
     while (st_ops < nops) episode(rng_next() % 1000000007ULL);
   }
+  if (!warmed) { warm_up(); warmed = 1; }
   pool_cleanup(); drop_T(); arena_drop();
   while (cinit_out) { hwloc_components_fini(); cinit_out--; }     /* a shrunk replay may have lost its cfini lines */
   { char r[64]; users_str(r); if (strcmp(r, "users=0 reg=0")) { fprintf(stderr, "registry not torn down at exit: %s\n", r); return 3; } }
@@ -956,6 +1036,7 @@ int main(int argc, char **argv) {
     S(arena_ref); S(arena_unref); S(arena_partial); S(cinit); S(dists); S(attrs_user); S(restrict); S(mismatch); S(loadbind); S(loadflags);
     S(reg); S(reg_err); S(reg_toocomplex); S(reg_with_T); S(reg_with_A); S(reg_users0); S(reg_pool_inited); S(reg_pool_configured);
     S(reg_pool_loaded); S(reg_pool_adopted); S(reg_pool_failed); S(reglive); S(reg_noslot); S(reg_init); S(reg_destroy); S(reg_dup);
+    S(static_ranges); S(static_bytes); S(static_first); S(static_checks);
     S(reg_setsrc); S(reg_load); S(reg_export); S(reg_diffbuild); S(reg_diffexp); S(reg_diffload); S(reg_shmem); S(reg_adopt_ok); S(reg_load_reconf); S(reg_free_users0);
     fclose(f);
   }
